@@ -1,12 +1,12 @@
 SPECIFICATION Spec
 CONSTANTS
-  Pool <- PoolI
-  Kids <- KidsI
-  TypeOf <- TypeI
-  HashOf <- HashI
-  MaxEnc = 3
+  Pool <- PoolX
+  Kids <- KidsX
+  TypeOf <- TypeX
+  HashOf <- HashX
+  MaxEnc = 2
   Aux = TRUE
-  AllowUnregistered = TRUE
+  AllowUnregistered = FALSE
   PinDecoded = FALSE
   SeenByHashOnly = FALSE
   Emitting = TRUE
